@@ -690,6 +690,41 @@ pub fn faults(out: &mut Out, seed: u64, thorough: bool) {
             }
         }
     }
+    // label A is remembered; a train whose first fragment re-uses it ends badly (damaged trailer, wrong length, missing
+    // fragment); a complete packet re-using A follows: fragments never touch the label memory, so it is delivered
+    for dmg in 0..4usize {
+        let la = vec![1u8, 2, 3, 4, 5, 6];
+        let prelude = vec![complete(&[9, 9], &la, false, 0x0800).ser()];
+        let pdu = rng.bytes(30);
+        let mut tt = train(&pdu, &la, true, 0x0800, 4, &[10, 10]);
+        let last = tt.len() - 1;
+        match dmg {
+            0 => tt[last].crc ^= 0x0400,
+            1 => tt[last].payload.push(0x77),
+            2 => {
+                tt.remove(1);
+            }
+            _ => tt[1].payload[0] ^= 1,
+        }
+        let mut v: Vec<Vec<u8>> = tt.iter().map(|p| p.ser()).collect();
+        v.push(complete(&[4, 5, 6, 7], &la, true, 0x0800).ser());
+        run_faulty(out, &mut rng, "reuse_train_fails_then_reuse", &prelude, &v);
+    }
+    // a train that fills its storage to the last byte, then one more fragment of that id (intermediate or end):
+    // refused, and the buffer comes back
+    for extra_kind in [0u8, 1] {
+        let mut rx = mk_rx(out, "faults", "exact_fill_then_more", 2, 40, 1, std_mgr(), false);
+        rx.note_id(4);
+        let pdu = rng.bytes(40);
+        let tt = train(&pdu, &[7, 7, 7], false, 0x0800, 4, &[20, 20]);
+        feed(out, &mut rx, &tt[0].ser(), vec![]);
+        feed(out, &mut rx, &tt[1].ser(), vec![]);
+        let more = P { kind: extra_kind, lt: 3, fragid: 4, tl: 0, ptype: 0, label: vec![], chain: vec![], payload: vec![1, 2, 3], crc: 9, gse_len: None };
+        feed(out, &mut rx, &more.ser(), vec![]);
+        feed(out, &mut rx, &tt[2].ser(), vec![]);
+        probe(out, &mut rx, &mut rng, 40, 4, 40 + 9);
+        rx.ev_drain(out);
+    }
     // the same tiny PDUs (the empty one included) with a wrong CRC trailer, and with a right trailer but a damaged
     // protocol type / label / payload byte: never delivered
     for n in 0..=3usize {
